@@ -4,6 +4,7 @@ import AkVerif.Lemmas.GhistReport
 import AkVerif.Lemmas.GhistPar
 import AkVerif.Lemmas.GhistIncl
 import AkVerif.Lemmas.GhistBnAll
+import AkVerif.Lemmas.GhistWindow
 /-!
 # C07 — component builds are reported at the first parent build that ships them
 
@@ -140,9 +141,9 @@ theorem included_first_partial (comps : List (Nat × Graph Bumps)) (repo : Nat) 
     exact (regsOfBuild_mem hl r.iid).mpr ⟨hnm, bump, t, h1, h2, h3, h4⟩
 
 section
-variable (comps : List (Nat × Graph Bumps)) (h : Hist Pins) (hT : h.Topo) (g : Graph Bumps)
-variable (hg : rgraph h (mkPlug comps) = .ok g)
-include hT hg
+variable (comps : List (Nat × Graph Bumps)) (h : Hist Pins) (hT : h.Topo) (hW : h.InWindow) (g : Graph Bumps)
+variable (hgw : rgraph h (mkPlug comps) = .ok g)
+include hT hW hgw
 
 /-- the bumps stored in a build are the ones `_mk_bumps_info` computes from the pins of the build's commit and the
 bumps of its parent builds: for each component, `from_rbuilds` are the component builds the parent builds contain
@@ -159,6 +160,7 @@ theorem bumps_recorded :
         ((∃ e, gC.bnMapAll.lookup bump.toBn = some e ∧ bump.toRb = some e.2) ∨
          (gC.bnMapAll.lookup bump.toBn = none ∧
            ((bump.fromRbs = [] ∧ bump.toRb = none) ∨ ∃ m, maxOf bump.fromRbs = some m ∧ bump.toRb = some m))) := by
+  have hg := rgraph_nw hT hW hgw
   intro b hb
   obtain ⟨rc, cm, pbs, h1, h2, h3, h4⟩ := (rgraph_bumpsOk hT hg).1 b hb
   refine ⟨rc, cm, pbs, h1, h2, h3, ?_⟩
@@ -179,7 +181,8 @@ theorem parent_version_in_from (b1 b2 : RB Bumps) (hb1 : b1 ∈ g.builds) (hb2 :
     (hpar : b1.iid ∈ b2.parents) (comp : Nat) (bump1 bump2 : Bump) (t1 : Nat)
     (h1 : b1.bumps.lookup comp = some bump1) (ht1 : bump1.toRb = some t1)
     (h2 : b2.bumps.lookup comp = some bump2) : t1 ∈ bump2.fromRbs := by
-  obtain ⟨rc, cm, pbs, _, _, hres, hall⟩ := bumps_recorded comps h hT g hg b2 hb2
+  have hg := rgraph_nw hT hW hgw
+  obtain ⟨rc, cm, pbs, _, _, hres, hall⟩ := bumps_recorded comps h hT hW g hgw b2 hb2
   obtain ⟨gC', v, _, _, _, hfrom, _⟩ := hall comp bump2 (lookup_some_mem h2)
   rw [hfrom]
   -- `b1` is among the resolved parent builds: ids of builds are unique
@@ -223,6 +226,7 @@ theorem included_only_first_partial (comp : Nat) (gC : Graph Bumps)
     (repo : Nat) (name : List Char) (l : List Reg)
     (hl : regsOfBuild repo name comp gC b2 = .ok l) (x : Nat) (hx : RbAnc gC x t1) :
     (⟨comp, x, repo, name, b2.bn⟩ : Reg) ∉ l := by
+  have hg := rgraph_nw hT hW hgw
   -- along the chain `x` stays contained in a previous version of every build, hence in its version
   have key : ∀ {b2 : RB Bumps}, BuildChain g.builds b1 b2 →
       ∃ bump2 t2, b2.bumps.lookup comp = some bump2 ∧ bump2.toRb = some t2 ∧
@@ -231,7 +235,7 @@ theorem included_only_first_partial (comp : Nat) (gC : Graph Bumps)
     induction hc with
     | one hb1 hb2 hpar =>
       obtain ⟨bump2, t2, h2, ht2⟩ := hpin _ hb2
-      have hin := parent_version_in_from comps h hT g hg _ _ hb1 hb2 hpar comp bump1 bump2 t1 h1 ht1 h2
+      have hin := parent_version_in_from comps h hT hW g hgw _ _ hb1 hb2 hpar comp bump1 bump2 t1 h1 ht1 h2
       exact ⟨bump2, t2, h2, ht2, ⟨t1, hin, hx⟩, RbAnc.trans hx (hmono _ hb2 bump2 t2 h2 ht2 t1 hin)⟩
     | step hc' hb2 hpar ih =>
       rename_i bm b2'
@@ -241,7 +245,7 @@ theorem included_only_first_partial (comp : Nat) (gC : Graph Bumps)
         | one _ h _ => exact h
         | step _ h _ => exact h
       obtain ⟨bump2, t2, h2, ht2⟩ := hpin _ hb2
-      have hin := parent_version_in_from comps h hT g hg _ _ hbm hb2 hpar comp bumpm bump2 tm hm1 hm2 h2
+      have hin := parent_version_in_from comps h hT hW g hgw _ _ hbm hb2 hpar comp bumpm bump2 tm hm1 hm2 h2
       exact ⟨bump2, t2, h2, ht2, ⟨tm, hin, hxm⟩, RbAnc.trans hxm (hmono _ hb2 bump2 t2 h2 ht2 tm hin)⟩
   obtain ⟨bump2, t2, h2, _, ⟨f, hf, hxf⟩, _⟩ := key hch
   intro hin
@@ -251,7 +255,7 @@ theorem included_only_first_partial (comp : Nat) (gC : Graph Bumps)
 
 /-- the parent builds recorded in a build are the nearest builds of the same branch below it in git ancestry
 (this is (1) of `included_first_partial`, proved for every history) -/
-theorem parent_builds_nearest : ∀ rb ∈ g.all, BrPar h g.rcs rb := rgraph_par hT hg
+theorem parent_builds_nearest : ∀ rb ∈ g.all, BrPar h g.rcs rb := rgraph_par hT (rgraph_nw hT hW hgw)
 
 /-- **partial** (C07.included_first / included_only_first, spec level on the parent side) — for a reported build
 `bd` of a parent branch, at commit `e`, whose pinned version of the component is `t`: a component build `x` is
@@ -274,7 +278,8 @@ theorem included_first_reported_partial (rb : RBranch Bumps) (hrb : rb ∈ g.all
     (⟨comp, x, repo, rb.name, bd.bn⟩ : Reg) ∈ l ↔
       RbAnc gC x t ∧ ∀ bp ∈ rb.rbuilds, ∀ ep, BuildAt g.rcs bp ep → ep ≠ e → Anc h ep e →
         ∀ bumpp tp, bp.bumps.lookup comp = some bumpp → bumpp.toRb = some tp → ¬ RbAnc gC x tp := by
-  have hpar := parent_builds_nearest comps h hT g hg rb hrb bd hbd e hbe
+  have hg := rgraph_nw hT hW hgw
+  have hpar := parent_builds_nearest comps h hT hW g hgw rb hrb bd hbd e hbe
   have hinb : ∀ bx ∈ rb.rbuilds, ∀ ex, BuildAt g.rcs bx ex → bx ∈ g.builds := by
     intro bx hbx ex hex
     exact (rgraph_bumpsOk hT hg).2 rb hrb bx hbx (by rw [hex.1]; rfl)
@@ -319,7 +324,7 @@ theorem included_first_reported_partial (rb : RBranch Bumps) (hrb : rb ∈ g.all
     obtain ⟨bm, hbm, em, hbem, hme, hma, hpm, hmmax⟩ := key (e - ep) bp ep hbp hbep hne hanc (Nat.le_refl _)
     have hmpar : bm.iid ∈ bd.parents := (hpar.2 bm.iid).mpr ⟨bm, hbm, rfl, em, hbem, hme, hma, hmmax⟩
     obtain ⟨bumpm, tm, hm1, hm2⟩ := hpin bm hbm em hbem
-    have hin := parent_version_in_from comps h hT g hg bm bd (hinb bm hbm em hbem) hbdg hmpar comp bumpm bump tm
+    have hin := parent_version_in_from comps h hT hW g hgw bm bd (hinb bm hbm em hbem) hbdg hmpar comp bumpm bump tm
       hm1 hm2 hb1
     have hcont := hmono bp hbp bm hbm ep em hbep hbem hpm bumpp tp bumpm tm hp1 hp2 hm1 hm2
     exact h4 tm hin (RbAnc.trans hcontra hcont)
@@ -327,7 +332,7 @@ theorem included_first_reported_partial (rb : RBranch Bumps) (hrb : rb ∈ g.all
     refine ⟨hbn, bump, t, hb1, hb2, h3, ?_⟩
     intro f hf hxf
     -- `f` is the version of a parent build, which is a reported build of the branch below `e`
-    obtain ⟨rc, cm, pbs, _, _, hres, hall⟩ := bumps_recorded comps h hT g hg bd hbdg
+    obtain ⟨rc, cm, pbs, _, _, hres, hall⟩ := bumps_recorded comps h hT hW g hgw bd hbdg
     obtain ⟨gC', v, _, _, _, hfrom, _⟩ := hall comp bump (lookup_some_mem hb1)
     obtain ⟨pb, hpb, b0, hb0, hcase⟩ := (hfrom f).mp hf
     -- `pb` is one of the resolved parent builds
@@ -374,6 +379,7 @@ theorem bump_build_reported_partial (j : Nat) (b : Branch) (rb : RBranch Bumps)
          (∀ pb ∈ pbs, pb ∈ g.builds) ∧
          mkBumps (sortBy (fun a b => a.1 < b.1) (relevantComps comps)) cm.pins (pbs.map (·.bumps)) = .ok bumps ∧
          ∀ cb ∈ bumps, cb.2.trivial = true)) := by
+  have hg := rgraph_nw hT hW hgw
   rcases rgraph_elig hT hg j b rb hb hrb e he with h1 | ⟨h1, h2⟩
   · exact Or.inl h1
   · right
@@ -418,20 +424,21 @@ of the parent (`rb` its result), under the property's quantifier for that branch
 * `hmono` — along git ancestry the pinned version never decreases, read as containment. -/
 
 section
-variable (comps : List (Nat × Graph Bumps)) (h : Hist Pins) (hT : h.Topo) (g : Graph Bumps)
-variable (hg : rgraph h (mkPlug comps) = .ok g)
+variable (comps : List (Nat × Graph Bumps)) (h : Hist Pins) (hT : h.Topo) (hW : h.InWindow) (g : Graph Bumps)
+variable (hgw : rgraph h (mkPlug comps) = .ok g)
 variable (j : Nat) (b : Branch) (rb : RBranch Bumps)
 variable (hb : (branchesOf h)[j]? = some b) (hrb : g.all[j]? = some rb)
 variable (comp : Nat) (gC : Graph Bumps) (hcomp : ∀ g', (comp, g') ∈ comps → g' = gC) (hin : (comp, gC) ∈ comps)
 variable (hpin : ∀ e', SpecBuild h ((branchesOf h).take j) b e' → ∃ t, pinRb h comp gC e' = some t)
 variable (hmono : ∀ e1 e2, SpecBuild h ((branchesOf h).take j) b e1 → SpecBuild h ((branchesOf h).take j) b e2 →
   Anc h e1 e2 → ∀ t1 t2, pinRb h comp gC e1 = some t1 → pinRb h comp gC e2 = some t2 → RbAnc gC t1 t2)
-include hT hg hb hrb hcomp hin hpin
+include hT hW hgw hb hrb hcomp hin hpin
 
 /-- the bump of the component recorded in a reported build names the version pinned in the build's commit -/
 theorem reported_bump (bx : RB Bumps) (hbx : bx ∈ rb.rbuilds) (ex : Nat) (hex : BuildAt g.rcs bx ex) :
     SpecBuild h ((branchesOf h).take j) b ex ∧
     ∃ bump t, bx.bumps.lookup comp = some bump ∧ bump.toRb = some t ∧ pinRb h comp gC ex = some t := by
+  have hg := rgraph_nw hT hW hgw
   have hsem := ((rgraph_sem hT hg).2 j b rb hb hrb).1
   obtain ⟨_, rc0, hrc0, hspec, _⟩ := hsem.buildSpec bx hbx (by rw [hex.1]; rfl)
   obtain ⟨hrcm, rc1, hrc1, hce⟩ := hex
@@ -459,7 +466,8 @@ below it (its bump is trivial) -/
 theorem skipped_version (e' : Nat) (hspec' : SpecBuild h ((branchesOf h).take j) b e')
     (hnr : ¬ ∃ bx ∈ rb.rbuilds, BuildAt g.rcs bx e') (t' : Nat) (hpe' : pinRb h comp gC e' = some t') :
     ∃ pb ∈ rb.rbuilds, ∃ ep, BuildAt g.rcs pb ep ∧ ep ≠ e' ∧ Anc h ep e' ∧ pinRb h comp gC ep = some t' := by
-  have hA := reported_bump comps h hT g hg j b rb hb hrb comp gC hcomp hin hpin
+  have hg := rgraph_nw hT hW hgw
+  have hA := reported_bump comps h hT hW g hgw j b rb hb hrb comp gC hcomp hin hpin
   rcases rgraph_skip hT hg j b rb hb hrb e' hspec' with hrep | ⟨_, hsk⟩
   · exact absurd hrep hnr
   · have hrel : (comp, gC) ∈ sortBy (fun a b : Nat × Graph Bumps => decide (a.1 < b.1)) (relevantComps comps) := by
@@ -506,15 +514,15 @@ theorem skipped_version (e' : Nat) (hspec' : SpecBuild h ((branchesOf h).take j)
 end
 
 section
-variable (comps : List (Nat × Graph Bumps)) (h : Hist Pins) (hT : h.Topo) (g : Graph Bumps)
-variable (hg : rgraph h (mkPlug comps) = .ok g)
+variable (comps : List (Nat × Graph Bumps)) (h : Hist Pins) (hT : h.Topo) (hW : h.InWindow) (g : Graph Bumps)
+variable (hgw : rgraph h (mkPlug comps) = .ok g)
 variable (j : Nat) (b : Branch) (rb : RBranch Bumps)
 variable (hb : (branchesOf h)[j]? = some b) (hrb : g.all[j]? = some rb)
 variable (comp : Nat) (gC : Graph Bumps) (hcomp : ∀ g', (comp, g') ∈ comps → g' = gC) (hin : (comp, gC) ∈ comps)
 variable (hpin : ∀ e', SpecBuild h ((branchesOf h).take j) b e' → ∃ t, pinRb h comp gC e' = some t)
 variable (hmono : ∀ e1 e2, SpecBuild h ((branchesOf h).take j) b e1 → SpecBuild h ((branchesOf h).take j) b e2 →
   Anc h e1 e2 → ∀ t1 t2, pinRb h comp gC e1 = some t1 → pinRb h comp gC e2 = some t2 → RbAnc gC t1 t2)
-include hT hg hb hrb hcomp hin hpin hmono
+include hT hW hgw hb hrb hcomp hin hpin hmono
 
 /-- **partial** (C07.included_first + included_only_first, specification level on the parent side) — a reported
 build `bd` of the branch, at commit `e`, registers the component build `x` exactly when the version pinned in `e`
@@ -530,8 +538,9 @@ theorem included_first_spec_partial (bd : RB Bumps) (hbd : bd ∈ rb.rbuilds) (e
       ∃ t, pinRb h comp gC e = some t ∧ RbAnc gC x t ∧
         ∀ e', SpecBuild h ((branchesOf h).take j) b e' → e' ≠ e → Anc h e' e →
           ∀ t', pinRb h comp gC e' = some t' → ¬ RbAnc gC x t' := by
+  have hg := rgraph_nw hT hW hgw
   have hrbm : rb ∈ g.all := List.mem_of_getElem? hrb
-  have hA := reported_bump comps h hT g hg j b rb hb hrb comp gC hcomp hin hpin
+  have hA := reported_bump comps h hT hW g hgw j b rb hb hrb comp gC hcomp hin hpin
   obtain ⟨hspece, bump, t, hb1, hb2, hpe⟩ := hA bd hbd e hbe
   -- the hypotheses of the theorem about reported builds
   have hpin' : ∀ bx ∈ rb.rbuilds, ∀ ex, BuildAt g.rcs bx ex →
@@ -550,7 +559,7 @@ theorem included_first_spec_partial (bd : RB Bumps) (hbd : bd ∈ rb.rbuilds) (e
     rw [h3] at h8; cases h8
     rw [h4] at h9; cases h9
     exact hmono ep eq hsp hsq hanc tp tq h7 h10
-  rw [included_first_reported_partial comps h hT g hg rb hrbm comp gC hpin' hmono' bd hbd e hbe hbn bump t hb1 hb2
+  rw [included_first_reported_partial comps h hT hW g hgw rb hrbm comp gC hpin' hmono' bd hbd e hbe hbn bump t hb1 hb2
     repo l hl x]
   constructor
   · rintro ⟨h1, h2⟩
@@ -564,7 +573,7 @@ theorem included_first_spec_partial (bd : RB Bumps) (hbd : bd ∈ rb.rbuilds) (e
       rw [hpe'] at h5; cases h5
       exact h2 bx hbx e' hbex hne hanc bump' t' h3 h4 hcontra
     · obtain ⟨pb, hpbr, ep, hbap, hnep, hancp, hpep⟩ :=
-        skipped_version comps h hT g hg j b rb hb hrb comp gC hcomp hin hpin e' hspec' hrep t' hpe'
+        skipped_version comps h hT hW g hgw j b rb hb hrb comp gC hcomp hin hpin e' hspec' hrep t' hpe'
       obtain ⟨_, bumpp, tp, h6, h7, h8⟩ := hA pb hpbr ep hbap
       rw [hpep] at h8; cases h8
       have hlt1 := hancp.le hT
@@ -594,7 +603,8 @@ theorem included_first_exists_partial (x : Nat) : ∀ (e0 : Nat), SpecBuild h ((
     ∃ bd ∈ rb.rbuilds, ∃ e, BuildAt g.rcs bd e ∧ Anc h e e0 ∧ ∃ t, pinRb h comp gC e = some t ∧ RbAnc gC x t ∧
       ∀ e', SpecBuild h ((branchesOf h).take j) b e' → e' ≠ e → Anc h e' e →
         ∀ t', pinRb h comp gC e' = some t' → ¬ RbAnc gC x t' := by
-  have hA := reported_bump comps h hT g hg j b rb hb hrb comp gC hcomp hin hpin
+  have hg := rgraph_nw hT hW hgw
+  have hA := reported_bump comps h hT hW g hgw j b rb hb hrb comp gC hcomp hin hpin
   intro e0
   induction e0 using Nat.strongRecOn with
   | _ e0 ih =>
@@ -608,7 +618,7 @@ theorem included_first_exists_partial (x : Nat) : ∀ (e0 : Nat), SpecBuild h ((
         exact ⟨bx, hbx, e0, hbex, .refl _, t0, hp0, hx0, hmin⟩
       · exfalso
         obtain ⟨pb, hpbr, ep, hbap, hnep, hancp, hpep⟩ :=
-          skipped_version comps h hT g hg j b rb hb hrb comp gC hcomp hin hpin e0 hspec0 hrep t0 hp0
+          skipped_version comps h hT hW g hgw j b rb hb hrb comp gC hcomp hin hpin e0 hspec0 hrep t0 hp0
         obtain ⟨hsp, _⟩ := hA pb hpbr ep hbap
         exact hmin ep hsp hnep hancp t0 hpep hx0
     · -- an eligible commit properly below contains `x` already: descend
@@ -644,13 +654,13 @@ def PinsTo (h hC : Hist Pins) (comp : Nat) (gC : Graph Bumps) (preC : List Branc
     ∃ bt ∈ rbC.rbuilds, ∃ et, BuildAt gC.rcs bt et ∧ Anc hC et cv
 
 section
-variable (comps : List (Nat × Graph Bumps)) (h : Hist Pins) (hT : h.Topo) (g : Graph Bumps)
-variable (hg : rgraph h (mkPlug comps) = .ok g)
+variable (comps : List (Nat × Graph Bumps)) (h : Hist Pins) (hT : h.Topo) (hW : h.InWindow) (g : Graph Bumps)
+variable (hgw : rgraph h (mkPlug comps) = .ok g)
 variable (j : Nat) (b : Branch) (rb : RBranch Bumps)
 variable (hb : (branchesOf h)[j]? = some b) (hrb : g.all[j]? = some rb)
 variable (comp : Nat) (gC : Graph Bumps) (hcomp : ∀ g', (comp, g') ∈ comps → g' = gC) (hin : (comp, gC) ∈ comps)
 variable (hC : Hist Pins) (hTC : hC.Topo) (huC : TagsUnique hC) (plC : Plug Pins Bumps)
-variable (hgC : rgraph hC plC = .ok gC) (hlenC : gC.rcs.length ≤ Gen.Ghist.fakeStart)
+variable (hWC : hC.InWindow) (hgCw : rgraph hC plC = .ok gC) (hlenC : gC.rcs.length ≤ Gen.Ghist.fakeStart)
 variable (jC : Nat) (bC : Branch) (rbC : RBranch Bumps)
 variable (hbC : (branchesOf hC)[jC]? = some bC) (hrbC : gC.all[jC]? = some rbC)
 variable (hpins : ∀ e', SpecBuild h ((branchesOf h).take j) b e' →
@@ -658,7 +668,7 @@ variable (hpins : ∀ e', SpecBuild h ((branchesOf h).take j) b e' →
 variable (hmonoC : ∀ e1 e2, SpecBuild h ((branchesOf h).take j) b e1 → SpecBuild h ((branchesOf h).take j) b e2 →
   Anc h e1 e2 → ∀ cv1 cv2, PinsTo h hC comp gC ((branchesOf hC).take jC) bC rbC e1 cv1 →
     PinsTo h hC comp gC ((branchesOf hC).take jC) bC rbC e2 cv2 → Anc hC cv1 cv2)
-include hT hg hb hrb hcomp hin hTC huC hgC hlenC hbC hrbC hpins hmonoC
+include hT hW hgw hb hrb hcomp hin hTC huC hWC hgCw hlenC hbC hrbC hpins hmonoC
 
 /-- **partial** (C07.included_first + included_only_first in git terms, one component release line) — a reported
 build `bd` of the parent branch, at commit `e` which pins the component version tagged on component commit `cv`,
@@ -679,6 +689,8 @@ theorem included_first_git_partial (bd : RB Bumps) (hbd : bd ∈ rb.rbuilds) (e 
     (⟨comp, bx.iid, repo, rb.name, bd.bn⟩ : Reg) ∈ l ↔
       Anc hC ex cv ∧ ∀ e', SpecBuild h ((branchesOf h).take j) b e' → e' ≠ e → Anc h e' e →
         ∀ cv', PinsTo h hC comp gC ((branchesOf hC).take jC) bC rbC e' cv' → ¬ Anc hC ex cv' := by
+  have hg := rgraph_nw hT hW hgw
+  have hgC := rgraph_nw hTC hWC hgCw
   -- what a pin means for `pinRb`
   have hpinrb : ∀ e' cv', PinsTo h hC comp gC ((branchesOf hC).take jC) bC rbC e' cv' →
       ∃ t, pinRb h comp gC e' = some t ∧
@@ -708,7 +720,7 @@ theorem included_first_git_partial (bd : RB Bumps) (hbd : bd ∈ rb.rbuilds) (e 
     rw [ht2] at h2; cases h2
     rw [← hbit]
     exact (hiff2 bi hbi ei hbei).mpr (hei.trans (hmonoC e1 e2 hs1 hs2 hanc cv1 cv2 hp1 hp2))
-  rw [included_first_spec_partial comps h hT g hg j b rb hb hrb comp gC hcomp hin hpin hmono bd hbd e hbe hbn
+  rw [included_first_spec_partial comps h hT hW g hgw j b rb hb hrb comp gC hcomp hin hpin hmono bd hbd e hbe hbn
     repo l hl bx.iid]
   obtain ⟨t, ht, hifft, _⟩ := hpinrb e cv hpe
   constructor
@@ -733,12 +745,12 @@ end
 at build 5.1.1 and 10.20.4 at build 5.1.2: the first build ships 10.20.1 and 10.20.2, the second one only what is
 new (10.20.3, 10.20.4) — the diamond does not make 10.20.1 appear again. -/
 def exLib : Hist Pins :=
-  { commits := [⟨[], [⟨10, 20, 1, 1⟩], true, []⟩, ⟨[0], [⟨10, 20, 2, 2⟩], true, []⟩, ⟨[0], [⟨10, 20, 3, 3⟩], true, []⟩,
-                ⟨[1, 2], [⟨10, 20, 4, 4⟩], false, []⟩],
+  { commits := [⟨[], [⟨10, 20, 1, 1⟩], true, [], 0⟩, ⟨[0], [⟨10, 20, 2, 2⟩], true, [], 0⟩, ⟨[0], [⟨10, 20, 3, 3⟩], true, [], 0⟩,
+                ⟨[1, 2], [⟨10, 20, 4, 4⟩], false, [], 0⟩],
     remote := "origin".toList, refs := [("origin/release/10.20".toList, 3)] }
 
 def exApp : Hist Pins :=
-  { commits := [⟨[], [⟨5, 1, 1, 1⟩], false, [(2, (10, 20, 2))]⟩, ⟨[0], [⟨5, 1, 2, 2⟩], false, [(2, (10, 20, 4))]⟩],
+  { commits := [⟨[], [⟨5, 1, 1, 1⟩], false, [(2, (10, 20, 2))], 0⟩, ⟨[0], [⟨5, 1, 2, 2⟩], false, [(2, (10, 20, 4))], 0⟩],
     remote := "origin".toList, refs := [("origin/release/5.1".toList, 1)] }
 
 example : (analyse [⟨0, [2], exApp⟩, ⟨2, [], exLib⟩]).map (fun r => (r.1.map (·.id), r.2)) = .ok ([2, 0],
